@@ -106,6 +106,9 @@ func (p *printer) sep() string {
 // at prints t as a non-terminal of the given level, wrapping in parentheses when t binds looser.
 func (p *printer) at(t *Tree, level int) string {
 	s := p.natural(t)
+	if p.noise && t.level() == 8 && level <= 7 && t.Kind != "const" && p.rnd.Intn(12) == 0 {
+		s = "+" + p.pad() + s // a unary plus in front of a primary adds no node to the tree
+	}
 	wrap := t.level() < level
 	if !wrap && p.parens == 2 && t.level() < 8 {
 		wrap = true
